@@ -346,7 +346,7 @@ def field_stream(ctx):
     def _alarm(signum, frame):
         raise _Slow()
 
-    signal.signal(signal.SIGALRM, _alarm)
+    signal.signal(signal.SIGVTALRM, _alarm)
     rng = ctx.rng
     S = ["N", "M", "k", "L"]
     for i in range(ctx.n(200, 4000)):
@@ -386,14 +386,14 @@ def field_stream(ctx):
             ctx.violation("failing-input", "re-imported uncompiled routine differs: " + err, {"qref": q}, err, "mathematically equal expressions")
             return
         ctx.nontrivial(("fields", i))
-        signal.alarm(20)
+        signal.setitimer(signal.ITIMER_VIRTUAL, 20)
         try:
             st, r = try_compile(q)
         except _Slow:
             ctx.stats["field_stream_compile_slow"] += 1
             continue
         finally:
-            signal.alarm(0)
+            signal.setitimer(signal.ITIMER_VIRTUAL, 0)
         ctx.stats["field_stream_compile_" + st] += 1
         if st == "ok":
             try:
